@@ -959,6 +959,13 @@ func (l *Lowerer) lowerGlobalVar(v *parser.VarDecl) error {
 			}
 		}
 		if initExpr == nil {
+			// A constant expression of scalar type (K, -K, K * 2, 1 + 2) is
+			// evaluated now and stored as a literal.
+			if h, ok := l.constScalarGlobalExpr(v.Init, typeHandle); ok {
+				initExpr = &h
+			}
+		}
+		if initExpr == nil {
 			// Fallback: try as constant (for non-literal inits)
 			constHandle, initErr := l.lowerGlobalVarInit(v.Name, typeHandle, v.Init)
 			if initErr == nil {
@@ -976,12 +983,15 @@ func (l *Lowerer) lowerGlobalVar(v *parser.VarDecl) error {
 					// For constructor inits (struct, vector, etc.), store the AST
 					// for direct conversion to GlobalExpressions later.
 					switch v.Init.(type) {
-					case *parser.CallExpr, *parser.ConstructExpr:
+					case *parser.CallExpr, *parser.ConstructExpr, *parser.Ident:
 						gvHandle := ir.GlobalVariableHandle(l.globalIdx)
 						if l.globalVarInitASTs == nil {
 							l.globalVarInitASTs = make(map[ir.GlobalVariableHandle]parser.Expr)
 						}
 						l.globalVarInitASTs[gvHandle] = v.Init
+					default:
+						// Dropping the initializer would start the variable at zero.
+						return fmt.Errorf("global var %s: unsupported initializer expression", v.Name)
 					}
 				}
 			}
@@ -1001,6 +1011,56 @@ func (l *Lowerer) lowerGlobalVar(v *parser.VarDecl) error {
 	})
 	l.globals[v.Name] = handle
 	return nil
+}
+
+// constScalarGlobalExpr evaluates a non-literal initializer of a scalar
+// (i32 / u32 / f32 / f16 / f64) module-scope variable as a constant expression
+// and stores the value as a literal in GlobalExpressions. ok is false when the
+// type is not such a scalar or the expression is not constant (it may depend
+// on an override: the caller then tries the override path).
+func (l *Lowerer) constScalarGlobalExpr(init parser.Expr, typeHandle ir.TypeHandle) (ir.ExpressionHandle, bool) {
+	switch init.(type) {
+	case *parser.Ident, *parser.UnaryExpr, *parser.BinaryExpr:
+	default:
+		return 0, false
+	}
+	t, ok := l.registry.Lookup(typeHandle)
+	if !ok {
+		return 0, false
+	}
+	scalar, ok := t.Inner.(ir.ScalarType)
+	if !ok {
+		return 0, false
+	}
+	var sv ir.ScalarValue
+	switch scalar.Kind {
+	case ir.ScalarSint, ir.ScalarUint:
+		kind, val, err := l.evalConstantIntExpr(init)
+		if err != nil || (kind != ir.ScalarSint && kind != ir.ScalarUint) {
+			return 0, false
+		}
+		sv = ir.ScalarValue{Kind: scalar.Kind, Bits: uint64(val)}
+	case ir.ScalarFloat:
+		val, err := l.evalConstantFloatExpr(init)
+		if err != nil {
+			return 0, false
+		}
+		switch scalar.Width {
+		case 8:
+			sv = ir.ScalarValue{Kind: ir.ScalarFloat, Bits: math.Float64bits(val)}
+		case 2:
+			sv = ir.ScalarValue{Kind: ir.ScalarFloat, Bits: uint64(float32ToHalf(float32(val)))}
+		default:
+			sv = ir.ScalarValue{Kind: ir.ScalarFloat, Bits: uint64(math.Float32bits(float32(val)))}
+		}
+	default:
+		return 0, false
+	}
+	lit := literalForScalar(sv, scalar)
+	if lit == nil {
+		return 0, false
+	}
+	return l.addGlobalExpr(ir.Literal{Value: lit}), true
 }
 
 // lowerGlobalVarInit evaluates a global variable initializer as a constant expression
@@ -16370,18 +16430,22 @@ func (l *Lowerer) buildGlobalExprFor(
 				return addExpr(ir.Literal{Value: lit}), true
 			}
 		}
-		// Reference to a module-scope constant.
-		if ch, ok := l.moduleConstants[e.Name]; ok {
-			if int(ch) < len(l.module.Constants) {
-				c := &l.module.Constants[ch]
-				switch v := c.Value.(type) {
-				case ir.ScalarValue:
-					lit := scalarValueToLiteral(v)
-					if lit != nil {
-						return addExpr(ir.Literal{Value: lit}), true
-					}
-				}
+		// Reference to a module-scope constant. It is looked up by name in the
+		// compacted arena: l.moduleConstants holds the handles from before
+		// CompactConstants renumbered it.
+		for i := range l.module.Constants {
+			c := &l.module.Constants[i]
+			if c.Name != e.Name {
+				continue
 			}
+			if v, ok := c.Value.(ir.ScalarValue); ok {
+				if lit := scalarValueToLiteral(v); lit != nil {
+					return addExpr(ir.Literal{Value: lit}), true
+				}
+				return 0, false
+			}
+			// A composite (or init-based) constant: refer to it.
+			return addExpr(ir.ExprConstant{Constant: ir.ConstantHandle(i)}), true
 		}
 		return 0, false
 
